@@ -9,6 +9,7 @@ from glotaran.io import ProjectIoInterface
 from glotaran.io import register_project_io
 from glotaran.parameter import Parameters
 from glotaran.parameter.parameter import OPTION_NAMES_DESERIALIZED
+from glotaran.utils.io import parameter_text_column_read_options
 from glotaran.utils.io import safe_dataframe_fillna
 from glotaran.utils.io import safe_dataframe_replace
 
@@ -31,12 +32,14 @@ class CsvProjectIo(ProjectIoInterface):
         -------
             :class:`Parameters
         """
+        column_names = pd.read_csv(file_name, skipinitialspace=True, sep=sep, nrows=0).columns
         df = pd.read_csv(
             file_name,
             skipinitialspace=True,
             na_values=["None", "none"],
             sep=sep,
             float_precision="round_trip",
+            **parameter_text_column_read_options(column_names),
         )
         df.columns = [column.lower() for column in df.columns]
         df = df.rename(columns=OPTION_NAMES_DESERIALIZED)
